@@ -159,14 +159,17 @@ theorem C08_remove_boolean_strongeq (P : Sem.PParams) (prg : Prog) :
 open Proofs.C08impl in
 /-- **deleting a positive body literal that another body literal implies keeps the answer sets**, from an executable
 check on the syntax.  `R.src` is `pre ++ [head :- q(t̄), body] ++ post`, `R.res` the same with `q(t̄)` deleted; the check
-(`impliedCheck`) says: every statement is in the fragment (plain heads, plain bodies: symbolic literals of any sign,
-comparisons, boolean constants), `p(s̄)` is among the remaining body literals, and every rule whose head is an atom of
-`p/|s̄|` has a positive body literal `q(w̄)` in which each `w_j` is a variable standing at a head position where `p(s̄)`
-carries `t_j`, or the constant `t_j`.  Standard head semantics, every choice of the arithmetic / comparison parameters.
+(`impliedCheck`) says: every statement is in the fragment (heads: a plain literal, or a choice `lg { a : c̄ ; … } rg` of
+positive atoms under plain conditions; bodies and conditions: symbolic literals of any sign, comparisons, boolean
+constants), `p(s̄)` is among the remaining body literals, `q(t̄)` has no variable of its own, and every rule whose head is an
+atom of `p/|s̄|` - every choice element whose atom is one - has a positive literal `q(w̄)` in its body (its condition) in
+which each `w_j` is a variable standing at a position of the derived atom where `p(s̄)` carries `t_j`, or the constant
+`t_j`.  Standard head semantics, every choice of the arithmetic / comparison parameters in which the bounds of a choice
+(double negation) are evaluated in the total interpretation (`DnegOld`).
 The literal may stand anywhere in the body (`bb` has the same literals as `q(t̄) :: body`).  The proof is the argument of
 `C08_remove_implied_positive` (ground level, one rule) redone for all instances of the rewritten rule at once:
 supportedness of stable models in this fragment and the least model below `T`. -/
-theorem C08_remove_implied_typed (P : Sem.Params) (R : Rewrite) (bb : List BLit)
+theorem C08_remove_implied_typed (P : Sem.Params) (hdn : DnegOld P) (R : Rewrite) (bb : List BLit)
     (hsame : sameLits bb (R.qLit :: R.body) = true) (h : impliedCheck R = true) (T : Sem.Interp) :
     Sem.Stable (Sem.stdParams P) (R.pre ++ .rule R.line R.col R.head bb :: R.post) T ↔
       Sem.Stable (Sem.stdParams P) R.res T := by
@@ -174,7 +177,7 @@ theorem C08_remove_implied_typed (P : Sem.Params) (R : Rewrite) (bb : List BLit)
     (fun H T' => Proofs.C10multi.stmSat_same_body P R.line R.col R.line R.col R.head bb (R.qLit :: R.body)
       (sameLits_sound _ _ hsame) H T')
     R.pre R.post).stable]
-  exact remove_implied_of_check P R h T
+  exact remove_implied_of_check P hdn R h T
 
 open Proofs.C08impl in
 /-- the executable check implies the semantic side condition -/
@@ -183,11 +186,9 @@ theorem C08_implied_check_sound (P : Sem.Params) (R : Rewrite) (h : impliedCheck
 
 open Proofs.C08impl in
 /-- in the fragment every atom of an answer set is supported by a rule instance whose body holds -/
-theorem C08_supported_typed (P : Sem.Params) (prg : Prog) (hok : Ok prg) (T : Sem.Interp)
-    (hS : Sem.Stable (Sem.stdParams P) prg T) (a : Sem.GAtom) (ha : T a) :
-    ∃ l c t b, Stm.rule l c (.lit (.pos, .sym t)) b ∈ prg ∧ ∃ e, Sem.groundAtom P e t = some a ∧
-      Sem.bodySat P (fun _ => True) e T T b :=
-  supported P prg hok hS a ha
+theorem C08_supported_typed (P : Sem.Params) (hdn : DnegOld P) (prg : Prog) (hok : Ok prg) (T : Sem.Interp)
+    (hS : Sem.Stable (Sem.stdParams P) prg T) (a : Sem.GAtom) (ha : T a) : Derives P prg a T T :=
+  supported P hdn prg hok hS a ha
 
 /-! non-vacuity: `b(X) :- a(X).  foo(X) :- a(X), b(X).` - cleanup deletes `a(X)` from the second rule (the stored demo of
 the README); the check passes, so the theorem applies -/
@@ -196,15 +197,18 @@ open Proofs.C08impl Sem
 def atomL (n : String) (vs : List String) : BLit := .lit (.pos, .sym (.fn n (vs.map Term.var) false))
 def headL (n : String) (vs : List String) : Head := .lit (.pos, .sym (.fn n (vs.map Term.var) false))
 def R : Rewrite :=
-  { pre := [.rule 1 1 (headL "b" ["X"]) [atomL "a" ["X"]]], post := [.rule 3 1 (.lit (.pos, .bool false)) [atomL "foo" ["Y"], .lit (.pos, .cmp (.var "Y") [⟨.gt, .sym (.num 3)⟩])]],
+  { pre := [.rule 1 1 (headL "b" ["X"]) [atomL "a" ["X"]],
+            -- `{ b(X) : a(X) } :- c(X).`: a second way to derive `b`, through a choice element whose condition carries `a(X)`
+            .rule 1 2 (.agg none [((.pos, .sym (.fn "b" [.var "X"] false)), [(.pos, .sym (.fn "a" [.var "X"] false))])] none) [atomL "c" ["X"]]], post := [.rule 3 1 (.lit (.pos, .bool false)) [atomL "foo" ["Y"], .lit (.pos, .cmp (.var "Y") [⟨.gt, .sym (.num 3)⟩])]],
     line := 2, col := 1, head := headL "foo" ["X"], body := [atomL "b" ["X"]], pn := "b", pargs := [.var "X"], qn := "a", qargs := [.var "X"] }
 set_option maxRecDepth 4000 in
 theorem check : impliedCheck R = true := by
-  simp [impliedCheck, R, Rewrite.src, Rewrite.pLit, Rewrite.qLit, okStm, plainHead, plainBody, plainBLit, headL, atomL, ruleImplies,
-    posArgOk, blitMem, blitEqb, litEqb, atomEqb, termsEqb, termEqb]
-example (P : Params) (T : Interp) :
+  simp [impliedCheck, R, Rewrite.src, Rewrite.pLit, Rewrite.qLit, okStm, plainHead, plainBody, plainBLit, plainLit, plainElem, headL, atomL,
+    ruleImplies, qMatch, qVarsOk, posArgOk, blitMem, blitEqb, litEqb, atomEqb, termsEqb, termEqb, stdHeadGlobals, bodyGlobals, blitGlobals,
+    litVars, litTerms, Atom.terms, Term.vars]
+example (P : Params) (hdn : DnegOld P) (T : Interp) :
     Stable (stdParams P) (R.pre ++ .rule 2 1 (headL "foo" ["X"]) [atomL "a" ["X"], atomL "b" ["X"]] :: R.post) T ↔ Stable (stdParams P) R.res T :=
-  C08_remove_implied_typed P R [atomL "a" ["X"], atomL "b" ["X"]]
+  C08_remove_implied_typed P hdn R [atomL "a" ["X"], atomL "b" ["X"]]
     (by simp [sameLits, R, Rewrite.qLit, atomL, blitMem, blitEqb, litEqb, atomEqb, termsEqb, termEqb]) check T
 end C08ex
 
